@@ -88,7 +88,7 @@ func (e *Exec) execInstr(f *frame, in ssa.Instruction, h *Heap, g string) (*Heap
 			e.checkCond(f, "index", and(e.s.ixLe(e.s.ixLit(0), idx64), e.s.ixLt(idx64, "(sl_len "+base.T+")")), &g, in)
 			comp := e.elemComp(bt.Elem())
 			na = &Addr{Ref: "(sl_base " + base.T + ")", Comp: comp, Typ: bt.Elem(),
-				Path: []pathElem{{idx: e.s.ixAdd("(sl_off "+base.T+")", idx64), esort: e.s.sortOf(bt.Elem())}}}
+				Path: []pathElem{{idx: e.s.ixElem("(sl_off "+base.T+")", idx64), esort: e.s.sortOf(bt.Elem())}}}
 			if base.A != nil && base.A.Comp == comp && len(base.A.Path) == 0 {
 				// slice with a known backing array
 				na.Ref = base.A.Ref
